@@ -184,13 +184,29 @@ func (f *Frame) appendBuiltin(cc *ssa.CallCommon, args []Val, pc string, st *Sta
 		}
 		return fmt.Sprintf("(select %s (+ %s %s))", tarr, toff, j)
 	}
-	// in place: dst = src with [off+len, off+len+n) overwritten ; fresh: dst[j] = src[off+j] for j<len, dst[len+j] = t[j]
-	vc.assert(fmt.Sprintf("(forall ((j Int)) (! (= (select %s j) (ite %s (ite (and (<= (+ (off %s) (len %s)) j) (< j (+ (off %s) %s))) %s (select %s j)) (ite (and (<= 0 j) (< j (len %s))) (select %s (+ (off %s) j)) (ite (and (<= (len %s) j) (< j %s)) %s %s)))) :pattern ((select %s j))))",
-		dst, fits,
-		s.T, s.T, s.T, newLen, elemAt(fmt.Sprintf("(- j (+ (off %s) (len %s)))", s.T, s.T)), srcArr,
-		s.T, srcArr, s.T,
-		s.T, newLen, elemAt(fmt.Sprintf("(- j (len %s))", s.T)), vc.zero(et),
-		dst))
+	arrSort := "(Array Int " + es + ")"
+	if t.Lit != nil {
+		// literal elements (variadic call append(s, a, b)): no quantifier on the in-place path
+		inpl := srcArr
+		for k, e := range t.Lit {
+			inpl = fmt.Sprintf("(store %s (+ (off %s) (len %s) %d) %s)", inpl, s.T, s.T, k, e)
+		}
+		pre := vc.freshConst("app.pre", arrSort)
+		vc.assert(fmt.Sprintf("(forall ((j Int)) (! (=> (and (<= 0 j) (< j (len %s))) (= (select %s j) (select %s (+ (off %s) j)))) :pattern ((select %s j))))", s.T, pre, srcArr, s.T, pre))
+		fr := pre
+		for k, e := range t.Lit {
+			fr = fmt.Sprintf("(store %s (+ (len %s) %d) %s)", fr, s.T, k, e)
+		}
+		vc.assert(fmt.Sprintf("(= %s (ite %s %s %s))", dst, fits, inpl, fr))
+	} else {
+		// in place: dst = src with [off+len, off+len+n) overwritten ; fresh: dst[j] = src[off+j] for j<len, dst[len+j] = t[j]
+		vc.assert(fmt.Sprintf("(forall ((j Int)) (! (= (select %s j) (ite %s (ite (and (<= (+ (off %s) (len %s)) j) (< j (+ (off %s) %s))) %s (select %s j)) (ite (and (<= 0 j) (< j (len %s))) (select %s (+ (off %s) j)) (ite (and (<= (len %s) j) (< j %s)) %s %s)))) :pattern ((select %s j))))",
+			dst, fits,
+			s.T, s.T, s.T, newLen, elemAt(fmt.Sprintf("(- j (+ (off %s) (len %s)))", s.T, s.T)), srcArr,
+			s.T, srcArr, s.T,
+			s.T, newLen, elemAt(fmt.Sprintf("(- j (len %s))", s.T)), vc.zero(et),
+			dst))
+	}
 	st.heap[cn] = vc.define("h", vc.compSorts[cn], fmt.Sprintf("(store %s (arr %s) %s)", E, res, dst))
 	// a nil/empty append of nothing keeps nil: Go returns the original slice when n == 0 and it fits (always fits)
 	return Val{T: res, Typ: s.Typ}
@@ -237,6 +253,35 @@ func (f *Frame) inStack(fn *ssa.Function) bool {
 }
 
 func (f *Frame) callStatic(callee *ssa.Function, bindings []Val, args []Val, pc string, st *State, ins ssa.Value) (Val, string) {
+	if rc := f.root().con; rc != nil && !f.dry && (len(rc.Hints["call:"+callee.Name()]) > 0 || len(rc.Hints["call:"+callee.Name()+".after"]) > 0) {
+		// hints anchored at calls (also inside inlined callees; names resolve in the frame of the call)
+		for _, h := range rc.Hints["call:"+callee.Name()] {
+			f.applyHintCon(rc, h, pc, st, "call:"+callee.Name())
+		}
+		r, npc := f.callStatic2(callee, bindings, args, pc, st, ins)
+		if ins != nil {
+			f.vals[ins] = r
+		}
+		// results of the call are visible to .after hints as ret0, ret1, ...
+		if len(r.Tuple) > 0 {
+			for i, rv := range r.Tuple {
+				f.spec[fmt.Sprintf("ret%d", i)] = rv
+			}
+		} else if r.T != "" {
+			f.spec["ret0"] = r
+		}
+		for _, h := range rc.Hints["call:"+callee.Name()+".after"] {
+			f.applyHintCon(rc, h, npc, st, "call:"+callee.Name()+".after")
+		}
+		for i := 0; i < 4; i++ {
+			delete(f.spec, fmt.Sprintf("ret%d", i))
+		}
+		return r, npc
+	}
+	return f.callStatic2(callee, bindings, args, pc, st, ins)
+}
+
+func (f *Frame) callStatic2(callee *ssa.Function, bindings []Val, args []Val, pc string, st *State, ins ssa.Value) (Val, string) {
 	vc := f.vc
 	prog := vc.prog
 	name := callee.String()
@@ -448,8 +493,17 @@ func (f *Frame) callContract(callee *ssa.Function, con *Contract, args []Val, pc
 			npc = vc.define("pc nopanic", "Bool", and(pc, not(mp)))
 		}
 	}
-	// havoc the write set
-	ws := prog.writeSet(callee)
+	// The callee's contract is its complete frame specification: its own frame obligations prove that
+	// objects existing before the call change only where the modifies clause says so.
+	modRefs := f.modTargets(con, env)
+	ws := &writeRec{cells: map[*ssa.Alloc]bool{}, comps: map[string]bool{}, alloc: true}
+	for k := range modRefs {
+		if k == "*" {
+			ws.all = true
+		} else {
+			ws.comps[k] = true
+		}
+	}
 	if st.wr != nil {
 		st.wr.merge(ws)
 	}
@@ -467,8 +521,8 @@ func (f *Frame) callContract(callee *ssa.Function, con *Contract, args []Val, pc
 		}
 	}
 	sort.Strings(comps)
-	// modifies: which pre-existing objects may change
-	modRefs := f.modTargets(con, env)
+	_, anything := modRefs["*"]
+	var touched []string
 	for _, k := range comps {
 		srt, ok := vc.compSorts[k]
 		if !ok {
@@ -479,21 +533,28 @@ func (f *Frame) callContract(callee *ssa.Function, con *Contract, args []Val, pc
 			vc.comp(st, k, srt)
 		}
 		oldT := vc.comp(st, k, srt)
-		nv := vc.freshConst("post "+k, srt)
-		st.heap[k] = nv
-		if strings.HasPrefix(srt, "(Array Int ") {
-			// frame: pre-existing objects not named in modifies keep their value
-			var excl []string
-			for _, m := range modRefs[k] {
-				excl = append(excl, fmt.Sprintf("(not (= r %s))", m))
-			}
-			if mr, ok := modRefs["*"]; ok && len(mr) > 0 {
-				excl = append(excl, "false")
-			}
-			guard := and(append([]string{fmt.Sprintf("(< r %s)", pre.alloc)}, excl...)...)
-			vc.assert(fmt.Sprintf("(forall ((r Int)) (! (=> %s (= (select %s r) (select %s r))) :pattern ((select %s r))))", guard, nv, oldT, nv))
+		if !strings.HasPrefix(srt, "(Array Int ") || anything || ws.all {
+			st.heap[k] = vc.freshConst("post "+k, srt)
+			touched = append(touched, k)
+			continue
+		}
+		// Objects existing before the call change only where the callee's modifies clause says so (the
+		// callee's frame obligations prove it): the post-state is the pre-state with fresh values stored at
+		// exactly those references. Objects the callee allocates lie at references >= the allocation
+		// counter of the call; nothing is known about them in the pre-state terms, so leaving those entries
+		// as they are keeps them unconstrained, and only the callee's ensures clauses describe them.
+		_, elemSort := arraySorts(srt)
+		cur := oldT
+		for i, m := range modRefs[k] {
+			fv := vc.freshConst(fmt.Sprintf("post%d %s", i, k), elemSort)
+			cur = fmt.Sprintf("(store %s %s %s)", cur, m, fv)
+		}
+		if cur != oldT {
+			st.heap[k] = vc.define("h", srt, cur)
+			touched = append(touched, k)
 		}
 	}
+	comps = touched
 	if ws.alloc || ws.all {
 		na := vc.freshConst("alloc", "Int")
 		vc.assert(fmt.Sprintf("(>= %s %s)", na, st.alloc))
